@@ -72,9 +72,11 @@ empty or starts with `/` -/
 def wfParts (p : Parts) : Bool :=
   wfNetloc p.netloc && (p.path == [] || p.path.head? == some '/')
 
-/-- additional demand of the suffix-aware theorems: a plain host has no `%` (CPython's
-`.hostname` does not lower-case what follows a `%`).  Nothing is demanded of a bracketed
-literal: stems.py never suffix-processes it (zone ids, embedded IPv4, IPvFuture included) -/
+/-- a plain host has no `%` (CPython's `.hostname` does not lower-case what follows a `%`, the
+suffix-aware mode lower-cases the whole host): the suffix-aware statements in CPython's
+vocabulary (`B.hostname == A.hostname`) need it, the others need C08's case clause
+(`SplitCaseInv`) where it fails.  Nothing is demanded of a bracketed literal: stems.py never
+suffix-processes it (zone ids, embedded IPv4, IPvFuture included) -/
 def wfHostSA (netloc : Str) : Bool :=
   match specHost netloc with
   | '[' :: _ => true
@@ -131,6 +133,13 @@ def SplitRejoins (netloc : Str) : Prop :=
 `Props.C12.splitLaw_of_class`; says nothing about a bracketed literal: `hostSplit` is `none`) -/
 def SplitLaw (n : Str) : Prop :=
   ∀ d s, hostSplit splitSuffix n = some (d, s) → rejoin d s = lower (specHost n)
+
+/-- C08's "letter case does not matter" (`Props.C08.split_case_insensitive`: two non-special
+hostnames that differ in ASCII letter case only get the same split), at the hostname of this
+netloc -/
+def SplitCaseInv (n : Str) : Prop :=
+  ∀ h', lower h' = lower (pyHostname n) → isSpecialHost h' = false →
+    isSpecialHost (pyHostname n) = false → splitSuffix h' = splitSuffix (pyHostname n)
 
 /-- both hosts have the same public suffix (or none has one) -/
 def SameSuffixSplit (nu nv : Str) : Prop :=
